@@ -270,6 +270,13 @@ impl<const N: usize> UdpAssociateContext<N> {
     }
 }
 
+#[cfg(octo_squirrel_verif)]
+pub mod verif {
+    pub use super::tcp::PayloadCodec;
+    pub use super::tcp::ServerContext;
+    pub use super::udp::new_codec as new_udp_codec;
+}
+
 mod udp {
     use octo_squirrel::codec::shadowsocks::udp::AEADCipherCodec;
     use octo_squirrel::codec::shadowsocks::udp::Context;
